@@ -15,3 +15,11 @@ func zzFitsU64(a, b, c uint64) bool {
 	}
 	return new(big.Int).Div(zzBigMul(a, b), new(big.Int).SetUint64(c)).IsUint64()
 }
+
+// errOrNil converts a lib.ErrorI (interface holding a possibly typed nil) into a plain error.
+func errOrNil(e interface{ Error() string }) error {
+	if e == nil {
+		return nil
+	}
+	return e
+}
